@@ -593,7 +593,16 @@ class InProtocolBase(ProtocolMixin):
         return self.duration_from_unicode(cls, string)
 
     def boolean_from_bytes(self, cls, string):
-        return string.lower() in ('true', '1')
+        if isinstance(string, six.binary_type):
+            string = string.decode('ascii', 'replace')
+
+        s = string.strip().lower()
+        if s in ('true', '1'):
+            return True
+        if s in ('false', '0'):
+            return False
+
+        raise ValidationError(string, "Could not cast %r to boolean")
 
     def byte_array_from_bytes(self, cls, value, suggested_encoding=None):
         encoding = self.get_cls_attrs(cls).encoding
